@@ -7,6 +7,7 @@ TInit == l = 1 /\ mon = ThrMonInit([Cap |-> 1, MinLen |-> 1, K |-> 1])
 TNext == /\ l <= Len(Trace) /\ l' = l + 1
          /\ \E E \in {Trace[l]} :
               IF E.ev = "new" THEN mon' = ThrMonInit([Cap |-> E.Cap, MinLen |-> E.MinLen, K |-> E.K])
+              ELSE IF E.ev = "pframe" THEN mon' = [mon EXCEPT !.disk = E.disk]      \* a frame enters the processor in front
               ELSE \E m1 \in {ThrMonStep(mon, E)} :
                      /\ mon' = m1
                      /\ (IF m1.v = {} THEN TRUE ELSE PrintT(<<"VIOL", l, m1.v>>))
